@@ -256,8 +256,10 @@ def _judge(want, have, closure=(), depth=0, conds=None, wconds=None):
         wt = ht = ['']
     wsk, hsk = [(k, h) for k, h, _ in we], [(k, h) for k, h, _ in he]
     if wsk != hsk:
-        missing = [x for x in wsk if x not in hsk]
-        extra = [x for x in hsk if x not in wsk]
+        from collections import Counter
+        cw, ch = Counter(wsk), Counter(hsk)
+        missing = list((cw - ch).elements())            # with multiplicity: a step that is made once instead of twice is missing once
+        extra = list((ch - cw).elements())
         if any(k == 'loop' for k, _ in missing + extra):
             return 'undecided', 'a nested loop was added or removed (its body is compared as text only)'
         shared = set(closure) | {'_closure_'}
